@@ -131,6 +131,14 @@ class RunPlan:
                 self.evidence(tier, seed, t0, tasks[:done + len(bt)], results + br, {}, {}, {}, harness=len(harness))
                 return 2
             self.post_process(bt, br, pool)
+            # differential worlds (baselines, -O twins) may have failed too: never a silent pass
+            late = [(done + i, r["harness_error"]) for i, r in enumerate(br) if "harness_error" in r]
+            if late:
+                for i, e in late[:5]:
+                    out("HARNESS-ERROR run=%d seed=%s (differential world) %s" % (
+                        i, tasks[i][1].get("seed"), str(e).strip().splitlines()[-1] if str(e).strip() else e))
+                self.evidence(tier, seed, t0, tasks[:done + len(bt)], results + br, {}, {}, {}, harness=len(late))
+                return 2
             results.extend(self.slim(r) for r in br)
             done += len(bt)
             if time.time() - t0 > budget and done < len(tasks):
@@ -220,10 +228,16 @@ class RunPlan:
             i, v = by_sig[sig][0]
             path = self.minimise_and_write(sig, tasks[i], results[i], v)
             replays.append(path)
+            if getattr(self, "last_replay_reproduced", True) is False:
+                # seen once, not reproducible from its own replay file in a fresh process: that is a
+                # defect of the machinery (nondeterminism), never reported as a verdict on the library
+                out("HARNESS-NONDETERMINISM property=%s signature=%s replay=%s did not reproduce" % (self.prop, sig, path))
+                rc = max(rc, 3)
+                continue
             out("VIOLATION property=%s replay=%s" % (self.prop, path))
             out("  signature=%s first_seed=%s occurrences=%d detail=%s" % (
                 sig, tasks[i][1].get("seed"), len(by_sig[sig]), canon(v.get("detail"))[:400]))
-            rc = 1
+            rc = max(rc, 1) if rc != 3 else 3
         for v in extra_v:
             if match_finding(findings, self.prop, v["signature"]) is None:
                 path = self.write_extra_replay(v)
@@ -276,21 +290,18 @@ class RunPlan:
         }
         d = os.path.join(REPLAY_DIR, self.prop)
         os.makedirs(d, exist_ok=True)
-        name = "%s-%d.json" % (sig.replace("/", "_").replace(":", "_").replace(" ", "_")[:80], req.get("seed") or 0)
-        path = os.path.join(d, name)
+        path = os.path.join(d, safe_name(sig, req.get("seed") or 0))
         with open(path, "w") as f:
             json.dump(rp, f, indent=1)
         # the replay must reproduce in a fresh process
         fresh = self.replay(rp)
-        if not any(x["signature"] == sig for x in self.violations_of(fresh)):
-            out("HARNESS-WARNING replay %s did not reproduce in a fresh process" % path)
+        self.last_replay_reproduced = any(x["signature"] == sig for x in self.violations_of(fresh))
         return path
 
     def write_extra_replay(self, v):
         d = os.path.join(REPLAY_DIR, self.prop)
         os.makedirs(d, exist_ok=True)
-        name = "%s.json" % (v["signature"].replace("/", "_").replace(":", "_").replace(" ", "_")[:100])
-        path = os.path.join(d, name)
+        path = os.path.join(d, safe_name(v["signature"], None))
         with open(path, "w") as f:
             json.dump({"property": self.prop, "signature": v["signature"], "extra": True,
                        "boot": v.get("boot"), "request": v.get("request"),
@@ -381,6 +392,16 @@ class RunPlan:
             "pre-emption/injection points are source lines of measured/*.py; C code (dict, lru_cache) is atomic",
             "the reference model (sim/model.py) is textbook quantity calculus written from the property statements",
         ]
+
+
+def safe_name(sig, seed):
+    """A file name without shell metacharacters; a short hash keeps distinct signatures apart."""
+    import hashlib
+    import re
+
+    stem = re.sub(r"[^A-Za-z0-9_.+-]", "_", sig)[:70]
+    h = hashlib.sha256(sig.encode()).hexdigest()[:8]
+    return "%s-%s%s.json" % (stem, h, "" if seed is None else "-%d" % seed)
 
 
 def fnmatch_sig(sig, pattern):
